@@ -92,3 +92,5 @@ PROP = {'title': 'Random wrappers are transparent and stay within the requested 
                  'are never used',
                  'the compile probes for operator()(rng, param), param(), convert_to and variate<uniform_container> are kept beside the '
                  'runtime checks']}
+
+PROP['rule'] += " Compile probe: the parameters of uniform_int<Enum> convert to std::uniform_int_distribution<underlying type>::param_type."
